@@ -241,6 +241,7 @@ func TestVerifC02(t *testing.T) {
 		c02Scenario("tdc-udp-2", "tdc-udp", 2, p2),
 		c02Scenario("pipeline-tcp-2", "pipeline-tcp", 2, pp2),
 		c02Tsys("async-tdc-tcp-c2-seq2-idwrap", tOpt{Kind: "tdc-tcp", Callers: 2, Seq: 2, Srv: srvOpt{Reorder: true}, StartQid: 0xFFFF, RewindQid: true, CtxMode: []int{1, 1}}, p2),
+		c02Tsys("async-tdc-tcp-c2-seq2-abandon", tOpt{Kind: "tdc-tcp", Callers: 2, Seq: 2, Srv: srvOpt{Reorder: true}, CtxMode: []int{2, 1}}, p2),
 		c02Tsys("async-tdc-udp-c3-reorder", tOpt{Kind: "tdc-udp", Callers: 3, Srv: srvOpt{Reorder: true, Dup: 1}, CtxMode: []int{1, 1, 1}}, pp2),
 		c02Tsys("async-reuse-c2-seq2", tOpt{Kind: "reuse", Callers: 2, Seq: 2, Srv: srvOpt{CloseBudget: 1, CloseAfterAnswerOnly: true}, CtxMode: []int{1, 1}}, pp2),
 	}
@@ -271,6 +272,9 @@ func c02Tsys(name string, o tOpt, d int) vr.Scenario {
 		var key []string
 		for _, c := range s.calls {
 			key = append(key, errStr(c.err))
+			if !c.refused && c.err == nil && !s.ownAnswer(c) {
+				return V("returned-another-reply", fmt.Sprintf("call %d returned bytes that are not the reply to its query although its own reply was sent", c.idx))
+			}
 			if c.refused || c.cancelled || x.EarlyTimers > 0 {
 				continue
 			}
